@@ -12,14 +12,66 @@ EXTENDS C19, Json
 
 CONSTANT Scope          \* "laws" | "quick" | "thorough"
 
+(* The case space is a family of PARTS indexed by (part number, resource     *)
+(* type).  An initial state is a seed (part, type); its successors are the    *)
+(* cases of that part, so TLC's workers enumerate, check and emit the parts   *)
+(* in parallel.  (TLC evaluates zero-arity definitions eagerly and unions of  *)
+(* big sets by linear search; the parts are therefore never united.)          *)
+FragCases(types, ids) == {Case("frag", t, i.s, "", "", i.c, "", "", "") : t \in types, i \in ids}
+BareFragCases(types)  == {Case("frag", t, "", "", "", "bare", "", "", "") : t \in types}
+UrnCases(types) == {Case("urn", t, u.s, "", "", u.c, "", "", "") : t \in types, u \in RangeOf(UrnPool)}
+CanonCases(urls, vers, frags) == {Case("canon", "", f.s, v.s, u.s, f.c, v.c, u.c, "") : u \in urls, v \in vers, f \in frags}
+(* canonical URLs that embed each resource type *)
+TypeCanonCases(types) ==
+  {Case("canon", t, f.s, v.s, "http://example.org/fhir/" \o t \o "/c1", f.c, v.c, "typed", "")
+     : t \in types, v \in {e \in RangeOf(CanonVerPool) : e.c \in {"none", "semver"}}, f \in {e \in RangeOf(CanonFragPool) : e.c \in {"none", "mixed"}}}
+(* not well-formed canonicals: rejected with an error, or accepted consistently *)
+BadCanonCases ==
+  {Case("canon", "", f.s, v.s, u.s, f.c, v.c, u.c, "") :
+     u \in {[c |-> "emptyurl", s |-> ""]} \cup {e \in RangeOf(CanonUrlPool) : e.c = "plain"},
+     v \in {[c |-> "none", s |-> ""], [c |-> "semver", s |-> "1.0.0"], [c |-> "vspace", s |-> "1.0 beta"], [c |-> "vplus", s |-> "1.0.0+b7"]},
+     f \in {[c |-> "none", s |-> ""], [c |-> "mixed", s |-> "A1-b.2"], [c |-> "len65", s |-> Id60 \o "x.8Zq"], [c |-> "badspace", s |-> "a b"]}}
+EmptyCase == Case("empty", "Patient", "", "", "", "", "", "", "")
+PoolCases(types) == {Case("pool", t, "A1-b.2", "1", "http://example.org/fhir", "mixed", "v1", "https", NextType(t)) : t \in types}
+
+NoType == {""}
+(* parts 1..7 are common to every scope *)
+CommonPart(k, t) ==
+  CASE k = 1 -> UrnCases({t})
+    [] k = 2 -> TypeCanonCases({t})
+    [] k = 3 -> PoolCases({t})
+    [] k = 4 -> BareFragCases({t})
+    [] k = 5 -> CanonCases(RangeOf(CanonUrlPool), RangeOf(CanonVerPool), RangeOf(CanonFragPool))
+    [] k = 6 -> BadCanonCases
+    [] k = 7 -> {EmptyCase}
+NCommon == 7
+
+(* quick: per type a covering selection (every id class; every base; every    *)
+(* version class), the full product for Patient only                          *)
+QuickPart(k, t) ==
+  CASE k <= NCommon -> CommonPart(k, t)
+    [] k = 8  -> RestCases({t}, IdsOf(AllIdLabels), VersOf({"none"}), BasesOf({"none"}))
+    [] k = 9  -> RestCases({t}, IdsOf({"len1", "len64", "mixed"}), VersOf(AllVerLabels \ {"none"}), BasesOf({"none"}))
+    [] k = 10 -> RestCases({t}, IdsOf({"mixed"}), VersOf({"none", "v1"}), BasesOf(AllBaseLabels \ {"none"}))
+    [] k = 11 -> RestCases({t}, IdsOf({"len64", "len65", "onlydot"}), VersOf({"vmixed"}), BasesOf({"nested", "trailing"}))
+    [] k = 12 -> FragCases({t}, IdsOf({"len1", "len64", "mixed", "len65", "badunderscore"}))
+    [] k = 13 -> RestCases({t}, IdsOf(AllIdLabels), VersOf(AllVerLabels), BasesOf(AllBaseLabels))      \* Patient only
+    [] k = 14 -> FragCases({t}, IdsOf(AllIdLabels))                                                    \* Patient only
+ThoroughPart(k, t) ==
+  CASE k <= NCommon -> CommonPart(k, t)
+    [] k = 8  -> RestCases({t}, IdsOf(AllIdLabels), VersOf({"none", "v1", "vlen64"}), BasesOf({"none", "https", "nested", "trailing"}))
+    [] k = 9  -> RestCases({t}, IdsOf({"len1", "len64", "mixed", "onlydot"}), VersOf(AllVerLabels), BasesOf(AllBaseLabels))
+    [] k = 10 -> FragCases({t}, IdsOf(AllIdLabels))
+    [] k = 11 -> RestCases({t}, IdsOf(AllIdLabels), VersOf(AllVerLabels), BasesOf(AllBaseLabels))      \* DeepTypes only
+
 (* ---- Scope "laws": a small exhaustive pool -------------------------------- *)
 LawTypes == {"Medication", "MedicationRequest", "List"}
 LawRest  == RestCases(LawTypes, IdsOf({"len1", "dot", "mixed", "onlydot", "len64", "len65", "len0", "badslash", "badunderscore"}),
                       VersOf({"none", "v1", "vbad"}), BasesOf({"none", "http", "port", "trailing"}))
 (* string neighbours of every valid reference text: what a parser must not   *)
 (* silently accept as the neighbouring valid reference                       *)
-Neighbours(cs) ==
-  LET c == CompsOf(cs)
+Neighbours(c0) ==
+  LET c == CompsOf(c0)
       s == Format(c)
       lc == Format([c EXCEPT !.type = LowerFirst(c.type)])
   IN {s, lc, s \o "/", "/" \o s, s \o "#x", s \o "|1", "#" \o s, s \o "/_history", s \o "/_history/",
@@ -27,89 +79,107 @@ Neighbours(cs) ==
       Format([c EXCEPT !.base = IF c.base = "" THEN "" ELSE c.base \o "//"]),
       Format([c EXCEPT !.type = c.type \o "x"])}
 StrCase(s) == Case("str", "", s, "", "", "", "", "", "")
-LawStrings == {StrCase(s) : s \in UNION {Neighbours(cs) : cs \in {r \in LawRest : ValidCase(r)}}}
-                \cup {StrCase(s) : s \in {"", "#", "#a", "##a", "#a b", "urn:uuid:5a17b7c2-e01c-4bc7-b973-31d4156b11d7", "urn:uuid:xyz",
-                                          "urn:oid:1.2.3", "urn:oid:1..2", "urn:", "http://example.org/", "bogus", "Patient", "/", "//"}}
-LawCases ==
-  LawRest \cup LawStrings
-  \cup FragCases(LawTypes, IdsOf({"len1", "mixed", "len64", "len65", "badunderscore"}))
-  \cup UrnCases({"List"})
-  \cup CanonCases(RangeOf(CanonUrlPool), RangeOf(CanonVerPool), RangeOf(CanonFragPool)) \cup BadCanonCases
-  \cup {EmptyCase} \cup PoolCases(LawTypes)
+LawPart(k, t) ==
+  CASE k <= NCommon -> CommonPart(k, t)
+    [] k = 8  -> {r \in LawRest : r.type = t}
+    [] k = 9  -> {StrCase(s) : s \in UNION {Neighbours(r) : r \in {r \in LawRest : r.type = t /\ ValidCase(r)}}}
+    [] k = 10 -> FragCases({t}, IdsOf({"len1", "mixed", "len64", "len65", "badunderscore"}))
+    [] k = 11 -> {StrCase(s) : s \in {"", "#", "#a", "##a", "#a b", "urn:uuid:5a17b7c2-e01c-4bc7-b973-31d4156b11d7", "urn:uuid:xyz",
+                                      "urn:oid:1.2.3", "urn:oid:1..2", "urn:", "http://example.org/", "bogus", "Patient", "/", "//"}}
 
-CaseSpace ==
-  CASE Scope = "laws" -> LawCases
-    [] Scope = "quick" -> QuickCases
-    [] Scope = "thorough" -> ThoroughCases
+NParts == CASE Scope = "laws" -> 11 [] Scope = "quick" -> 14 [] Scope = "thorough" -> 11
+PartAt(k, t) ==
+  CASE Scope = "laws" -> LawPart(k, t)
+    [] Scope = "quick" -> QuickPart(k, t)
+    [] Scope = "thorough" -> ThoroughPart(k, t)
+(* the resource types a part ranges over *)
+TypesOfPart(k) ==
+  LET all == IF Scope = "laws" THEN LawTypes ELSE R4Types IN
+  IF k \in {5, 6, 7} THEN NoType
+  ELSE IF Scope = "laws" /\ k = 11 THEN NoType
+  ELSE IF Scope = "quick" /\ k \in {13, 14} THEN {"Patient"}
+  ELSE IF Scope = "thorough" /\ k = 11 THEN DeepTypes
+  ELSE all
+Seed(k, t) == Case("seed", t, "", "", "", "", "", "", ToString(k))
+PartNo(seed) == CHOOSE k \in 1..NParts : ToString(k) = seed.x
 
-VARIABLES cs, done
+VARIABLES cs,     \* the case (a seed in the initial states)
+          den,    \* its denotation (C19!Denote), computed once when the case is generated
+          re      \* Parse(Format(den.want.c)): the re-parse of the canonical form
 
-Init == cs \in CaseSpace /\ done = FALSE
+NoDen == [text |-> ""]
+NoRe  == Err("none")
+Init == /\ \E k \in 1..NParts : \E t \in TypesOfPart(k) : cs = Seed(k, t)
+        /\ den = NoDen /\ re = NoRe
 Emit ==
-  /\ ~done
-  /\ done' = TRUE
-  /\ cs' = cs
-  /\ IF cs.kind # "str" THEN PrintT(ToJson(CaseJson(cs))) ELSE TRUE
+  /\ cs.kind = "seed"
+  /\ cs' \in PartAt(PartNo(cs), cs.type)
+  /\ den' = Denote(cs')
+  /\ re' = IF den'.want.k = "ok" THEN Parse(Format(den'.want.c)) ELSE NoRe
+  /\ IF cs'.kind # "str" THEN PrintT(ToJson(CaseJson(cs', den'))) ELSE TRUE
 Next == Emit
-Spec == Init /\ [][Next]_<<cs, done>>
+Spec == Init /\ [][Next]_<<cs, den, re>>
+
+Generated == cs.kind # "seed"
 
 (* ------------------------------------------------------------------- laws *)
 (* Parse(Format(c)) = c for valid components (the base URL in its canonical  *)
 (* form), and Format(Parse(Format(c))) = Format(c).                          *)
 InvRoundTrip ==
-  cs.kind \in {"rest", "frag", "urn"} /\ ValidCase(cs) =>
+  Generated /\ cs.kind \in {"rest", "frag", "urn"} /\ den.valid =>
      LET c == CompsOf(cs)
-         p == Parse(Format(c))
+         p == den.want                     \* Parse(Format(c))
      IN /\ p = OkC(Canon(c))
         /\ Format(p.c) = Format(Canon(c))
-        /\ (~HasRedundantSlash(Format(c)) => Format(p.c) = Format(c))
-        /\ Parse(Format(p.c)) = p
+        /\ (~den.red => Format(p.c) = den.text)
+        /\ re = p
 
 (* For every accepted string: formatting the parse gives the canonical form  *)
 (* (the input itself when it has no redundant slashes), and parsing that     *)
 (* again gives the same information.                                         *)
 InvCanonicalForm ==
-  cs.kind \in {"str", "rest", "frag", "urn", "canon", "empty"} =>
-     LET s == TextOf(cs)
-         p == Parse(s)
+  Generated /\ cs.kind \in {"str", "rest", "frag", "urn", "canon", "empty"} =>
+     LET s == den.text
+         p == den.want
      IN p.k = "ok" =>
           /\ ValidComps(p.c)
-          /\ TextAgrees(Format(p.c), s)
-          /\ (~HasRedundantSlash(s) => Format(p.c) = s)
-          /\ Parse(Format(p.c)) = p
+          /\ TextAgrees(Format(p.c), s, den.red)
+          /\ (~den.red => Format(p.c) = s)
+          /\ re = p
 
 (* Components outside the id alphabet / length never come back as a parse.   *)
 InvInvalidRejected ==
-  cs.kind \in {"rest", "frag"} /\ ~ValidCase(cs) => Parse(TextOf(cs)).k # "ok"
+  Generated /\ cs.kind \in {"rest", "frag"} /\ ~den.valid => den.want.k # "ok"
 
 (* A typed reference and the URI reference naming the same resource carry    *)
-(* equal information.                                                        *)
+(* equal information and compare as the same reference.                      *)
 InvStrongWeak ==
-  cs.kind = "rest" /\ ValidIdentity(cs) =>
+  Generated /\ cs.kind = "rest" /\ den.idvalid =>
      LET s == Strong(cs.type, cs.rid, cs.ver)
-     IN /\ WeakInfo(RelText(StrongInfo(s))) = OkC(StrongInfo(s))
-        /\ SameRef(PoolRef("strong", cs.type, cs.rid, cs.ver, ""), PoolRef("weak", cs.type, "", "", RelText(StrongInfo(s))))
-        /\ SameRef(PoolRef("weaknt", "", "", "", RelText(StrongInfo(s))), PoolRef("strong", cs.type, cs.rid, cs.ver, ""))
+         strong == PoolRef("strong", cs.type, cs.rid, cs.ver, "")
+     IN /\ den.relwant = OkC(StrongInfo(s))                 \* WeakInfo(rel) = StrongInfo
+        /\ den.rel = RelText(StrongInfo(s))
+        /\ cs.base = "" => /\ SameRef(strong, PoolRef("weak", cs.type, "", "", den.rel))
+                           /\ SameRef(PoolRef("weaknt", "", "", "", den.rel), strong)
 
 (* Identity comparison is an equivalence relation on the twelve references   *)
 (* of a pool, and agrees with what the property fixes.                       *)
 InvSameRefEquivalence ==
-  cs.kind = "pool" =>
-     LET refs == PoolRefs(cs)
+  Generated /\ cs.kind = "pool" =>
+     LET refs == den.refs
          D == 1..Len(refs)
-         same == [i \in D |-> [j \in D |-> SameRef(refs[i], refs[j])]]
+         info == [i \in D |-> RefInfo(refs[i])]
+         same == [i \in D |-> [j \in D |-> SameRefI(info[i], info[j])]]
      IN /\ \A i \in D : same[i][i]
         /\ \A i, j \in D : same[i][j] = same[j][i]
         /\ \A i, j, l \in D : same[i][j] /\ same[j][l] => same[i][l]
-        /\ \A i, j \in D : LET r == RequiredSame(refs[i], refs[j])
-                           IN (r = "T" => same[i][j]) /\ (r = "F" => ~same[i][j])
+        /\ \A i, j \in D : (den.req[i][j] = "T" => same[i][j]) /\ (den.req[i][j] = "F" => ~same[i][j])
 
 (* Well-formed canonical URLs split into url|version#fragment and reassemble *)
 (* unchanged; whatever is accepted reassembles unchanged.                    *)
 InvCanonical ==
-  cs.kind = "canon" =>
-     LET text == TextOf(cs)
-         p == CanonParse(text)
-     IN /\ ValidCase(cs) => p = CanonOk(cs.base, cs.ver, cs.rid)
-        /\ p.k = "ok" => CanonFormat(p.url, p.ver, p.frag) = text /\ WellFormedCanon(p.url, p.ver, p.frag)
+  Generated /\ cs.kind = "canon" =>
+     LET p == den.cwant
+     IN /\ den.valid => p = CanonOk(cs.base, cs.ver, cs.rid)
+        /\ p.k = "ok" => CanonFormat(p.url, p.ver, p.frag) = den.text /\ WellFormedCanon(p.url, p.ver, p.frag)
 =============================================================================
